@@ -144,7 +144,12 @@ def _xarray(
             array = pd.MultiIndex.from_arrays(arrays, names=names)
         coords[name] = (axes, array)
 
-    return xr.DataArray(data, coords=coords, dims=axes_mapping[output_name], name=output_name)
+    dims = axes_mapping[output_name]
+    if isinstance(data, np.ndarray) and data.dtype == object and data.ndim == len(dims):
+        # xarray reads an object array through pandas, which (pandas >= 3) turns None
+        # next to strings into nan; the results are kept as they are.
+        data = xr.Variable(dims, data, fastpath=True)
+    return xr.DataArray(data, coords=coords, dims=dims, name=output_name)
 
 
 def _xarray_dataset(
